@@ -190,8 +190,17 @@ def keydoor_graphs(ctx, sink):
             states[0] += 1
 
         # terminal states are not expanded by bfs; exploration is complete otherwise
+        raised = []
+
+        def on_error(s, a, e):
+            raised.append(describe_exc(e))
+
         status, _, stats = search.bfs(env, start, lambda *a: False, max_nodes=200000, on_state=on_state,
-                                      on_transition=on_transition)
+                                      on_transition=on_transition, on_error=on_error)
+        if raised:
+            # totality of the step function is C01's subject; here it only means part of the graph could not be explored
+            ctx.add('graph_transitions_that_raised', len(raised))
+            ctx.inconc(f'key-door graph (door {door}): the real step raised on {len(raised)} reachable transitions, e.g. {raised[0]}')
         ctx.add('graph_states', states[0])
         ctx.add('graph_transitions', stats['transitions'])
         ctx.addset('graphs', {'door': list(door), 'seed': seed, 'status': status, 'states': states[0],
@@ -248,7 +257,7 @@ def run(ctx):
             door_flags(ctx)
         product(ctx)
         for state, cat, rng in dyndrive.random_function_sweep(
-                ctx, 'C10sweep', ctx.pick(60, 4000),
+                ctx, 'C10sweep', ctx.pick(240, 4000),
                 types=[Floor, Wall, Door, Key, Box, Exit]):
             pass
         ctx.sample('sweep_state', {'state': enc.render(state), 'category': cat})
